@@ -21,6 +21,7 @@ import (
 	"sync/atomic"
 	"time"
 
+	tboc "github.com/tonkeeper/tongo/boc"
 	"github.com/tonkeeper/tongo/tlb"
 	"github.com/tonkeeper/tongo/ton"
 	"github.com/tonkeeper/tongo/tonconnect"
@@ -729,7 +730,6 @@ func main() {
 	R.Rule = "each base = (wallet version, key source: get_public_key answer or state-init, domain, lifetimes, fresh or nearly expired timestamp/payload); a proof by tonconnect.CreateSignedProof (also judged by the reference verifier) and one by the independent reference signer must be accepted with the wallet's key; then one field is changed at a time (rejection matrix incl. signature bit flips, state-init substitutions, expiry at lifetime+60 s, payload forgeries) and must give (false, _, err); malformed proofs run in child processes under a panic guard; non-trivial = every CheckProof call judged; distinct = (matrix entry, version, key source) classes and distinct accepted proofs"
 	R.Assume("reference ton_proof message and signer in harness/ref/wallet are written from the ton-connect specification; no literal network vector for ton_proof exists in the repository, so a shared misreading of that document would go unnoticed")
 	R.Assume("wallet state-inits and addresses come from the reference wallet model (validated at start-up against real address vectors)")
-	R.Assume("forgeries against small-order public keys (state-init of a known code without a data layout, e.g. the lockup wallet, yields an all-zero key) are not attempted")
 	R.Assume("proof timestamps in the future are not part of the statement and are not tested")
 	sc, err := rwallet.SelfCheck()
 	if err != nil {
@@ -784,6 +784,44 @@ func main() {
 	wg.Wait()
 	R.Extra("bases", len(bases))
 
+	// --- a proof that nobody signed: for every wallet code the library publishes, a state-init with that
+	// code and junk data, an address equal to its hash, an account that does not answer get_public_key, and
+	// the degenerate signature (R = neutral element, S = 0), which verifies under a small-order key for one
+	// message in four. It must never be accepted: either the code is not a known wallet, or the key
+	// parsed from the junk data is a real 32-byte value under which the degenerate signature fails.
+	keyless(R)
+
+	// --- payloads issued by the server itself expire after their lifetime (decided by waiting: the
+	// verdict "must be rejected" only gets safer when the machine is slow)
+	var wgp sync.WaitGroup
+	for i, life := range []int64{1, 2} {
+		wgp.Add(1)
+		go func(i int, life int64) {
+			defer wgp.Done()
+			srv, err := tonconnect.NewTonConnect(&executor{}, "secret-"+fmt.Sprint(i), tonconnect.WithLifeTimePayload(life))
+			if err != nil {
+				R.HarnessError("NewTonConnect: %v", err)
+				return
+			}
+			long, _ := tonconnect.NewTonConnect(&executor{}, "secret-"+fmt.Sprint(i), tonconnect.WithLifeTimePayload(3600))
+			var pay string
+			if p := mon.Guard(func() { pay, err = srv.GeneratePayload() }); p != nil || err != nil {
+				R.Violation("error@GeneratePayload", map[string]any{"err": fmt.Sprint(err, p)})
+				return
+			}
+			// fresh: accepted by a server with the same secret and a long lifetime
+			if ok, _ := long.CheckPayload(pay); !ok {
+				R.Violation("rejected@fresh-payload-of-GeneratePayload", map[string]any{"payload": pay})
+			}
+			time.Sleep(time.Duration(life)*time.Second + 1300*time.Millisecond)
+			ok, cerr := srv.CheckPayload(pay)
+			R.Eval(fmt.Sprintf("payload-expiry-by-waiting/%d", life))
+			if ok {
+				R.Violation("accepted@payload-of-GeneratePayload-after-its-lifetime", map[string]any{"lifetime_s": life, "waited_ms": life*1000 + 1300, "payload": pay, "err": fmt.Sprint(cerr)})
+			}
+		}(i, life)
+	}
+
 	// --- malformed inputs, in child processes (a fatal error names its input) ---
 	nMal := R.N(88, 880)
 	per := 11
@@ -800,5 +838,68 @@ func main() {
 			map[string]any{"case": c.Case, "input": mon.Trunc(string(c.Input), 3000), "exit": c.ExitInfo, "stderr": c.Stderr})
 	})
 	R.Extra("malformed_wallets", nMal)
+	wgp.Wait()
 	os.Exit(R.Finish())
+}
+
+// keyless: see the call site.
+func keyless(R *mon.Run) {
+	sig := make([]byte, 64)
+	sig[0] = 1 // encoding of the neutral element; S = 0
+	sigB64 := base64.StdEncoding.EncodeToString(sig)
+	for ver := twallet.Version(0); ver <= twallet.HighLoadV2R2+2; ver++ {
+		var code *tboc.Cell
+		if p := mon.Guard(func() { code = twallet.GetCodeByVer(ver) }); p != nil || code == nil {
+			continue
+		}
+		rng := R.Rng("keyless", int(ver))
+		data := tboc.NewCell()
+		data.WriteBytes(rng.Bytes(rng.Range(40, 100)))
+		si := tlb.StateInit{
+			Code: tlb.Maybe[tlb.Ref[tboc.Cell]]{Exists: true, Value: tlb.Ref[tboc.Cell]{Value: *code}},
+			Data: tlb.Maybe[tlb.Ref[tboc.Cell]]{Exists: true, Value: tlb.Ref[tboc.Cell]{Value: *data}},
+		}
+		sc := tboc.NewCell()
+		if err := tlb.Marshal(sc, si); err != nil {
+			continue
+		}
+		h, err := sc.Hash()
+		if err != nil {
+			continue
+		}
+		siB64, err := sc.ToBocBase64()
+		if err != nil {
+			continue
+		}
+		srv, err := tonconnect.NewTonConnect(&executor{}, "keyless-secret")
+		if err != nil {
+			R.HarnessError("NewTonConnect: %v", err)
+			return
+		}
+		pay, _ := srv.GeneratePayload()
+		now := time.Now().Unix()
+		accepted := 0
+		var acceptedKey string
+		for k := int64(0); k < 48; k++ {
+			p := &tonconnect.Proof{Address: fmt.Sprintf("0:%x", h), Proof: tonconnect.ProofData{Timestamp: now - k, Domain: "example.com", Signature: sigB64, Payload: pay, StateInit: siB64}}
+			var ok bool
+			var key ed25519.PublicKey
+			if pn := mon.Guard(func() {
+				ok, key, _ = srv.CheckProof(context.Background(), p, srv.CheckPayload, tonconnect.StaticDomain("example.com"))
+			}); pn != nil {
+				R.Violation("panic@"+pn.Site+"/CheckProof(keyless proof)", map[string]any{"version": fmt.Sprint(ver), "panic": pn.Value})
+				break
+			}
+			R.Eval(fmt.Sprintf("keyless/%d/%d", ver, k))
+			if ok {
+				accepted++
+				acceptedKey = hex.EncodeToString(key)
+			}
+		}
+		R.Seen("keyless_versions", fmt.Sprint(ver))
+		if accepted > 0 {
+			R.Violation("accepted@proof-nobody-signed/code-of-a-published-wallet-with-junk-data", map[string]any{"wallet_version": fmt.Sprint(ver), "accepted_of_48_timestamps": accepted,
+				"returned_key": acceptedKey, "state_init": siB64, "signature": "R = neutral element, S = 0"})
+		}
+	}
 }
